@@ -372,10 +372,10 @@ class Battery(Component):
             f_p = p_dis / (p_dis + q_dis)  # active fraction
             f_q = 1 - f_p  # reactive fraction
             diff = p_dis + q_dis - self.inj_max
-            p_dis_remaining += diff * (1 - f_p)
-            q_dis_remaining += diff * (1 - f_q)
-            p_dis -= diff * (1 - f_p)
-            q_dis -= diff * (1 - f_q)
+            p_dis_remaining += diff * f_p
+            q_dis_remaining += diff * f_q
+            p_dis -= diff * f_p
+            q_dis -= diff * f_q
 
         dE = 1 / self.n_battery * (p_dis + q_dis) * dt.get_hours()  # MWh/MVarh
         E_tr = self.E_battery - dE
